@@ -16,7 +16,7 @@ META = {
 
 CFGS = [("depth1", "MC_PolicyLang.cfg", None), ("stmt", "MC_PolicyLang_stmt.cfg", None),
         ("fx", "MC_PolicyLang_fx.cfg", None), ("fxstmt", "MC_PolicyLang_fxstmt.cfg", None),
-        ("quirks", "MC_PolicyLang_quirks.cfg", None), ("any", "MC_PolicyLang_any.cfg", None)]
+        ("ret", "MC_PolicyLang_ret.cfg", None), ("quirks", "MC_PolicyLang_quirks.cfg", None), ("any", "MC_PolicyLang_any.cfg", None)]
 
 
 def run(ctx):
